@@ -315,7 +315,10 @@ PLANS["C30"] = {
                                spread(seed, "C30g", N(tier, 40, 800), ["QF_RDL", "QF_UFRDL", "QF_RDL"], "configs", mode="dlgraph", nnum=5,
                                       cfgs=["proofs", "cores", "seed"], timeout=20),
     "rule": "every check-sat of the non-integer script space under all engines and tracking options and in push/pop histories "
-            "must answer within 20 s (the default engine answers these instances in milliseconds)",
+            "must answer within 20 s (the default engine answers these instances in milliseconds); besides random histories: "
+            "difference-constraint graphs, guarded simplex systems of 6 and 12 variables (Bland's rule), systems of top-level "
+            "equalities over nested uninterpreted terms (substitution pass), towers g(t,t) and shared conjunctions of depth "
+            "24-60 written with let (small as DAGs, huge as trees; judged on returning and on agreement only)",
 }
 PLANS["C18"] = {
     "flavours": ["rel", "asan"],
